@@ -1,5 +1,5 @@
 \* the code as written (all switches on): the cursor / life-cycle invariants and Termination / SenderNeverStuck still hold;
-\* NoBadFrame, DueDelivered, NoDuplicate, RefusalIsAnError, ClosedEndsHandler do not (add one to see its counterexample)
+\* NoBadFrame, DueDelivered, FutureNotSkipped (both broken by row_err_unnoticed), NoDuplicate, RefusalIsAnError, ClosedEndsHandler do not (add one to see its counterexample)
 SPECIFICATION Spec
 CONSTANTS
   Lines = {1, 2}
@@ -10,6 +10,6 @@ CONSTANTS
   MaxStale = 1
   MaxWire = 2
   ReqKinds = {"ok", "empty", "noparse", "noupgrade"}
-INVARIANTS TypeOK FutureNotSkipped OldNeverDelivered OnlyStoredLines ServiceStopsAfterHandler DrainerOnlyAfterHandler
+INVARIANTS TypeOK OldNeverDelivered OnlyStoredLines ServiceStopsAfterHandler DrainerOnlyAfterHandler
   ClosedOnlyByService RefusedStartsNothing
 CHECK_DEADLOCK FALSE
